@@ -6,17 +6,23 @@ from bounded import graph_drv
 def run(tier, seed):
     res = PropertyResult('C09', 'other', '')
     try:
-        from contracts import circuit_c
+        from contracts import circuit_c, graph_c
         from pyvc.verify import verify
-        res.report = verify(circuit_c.targets(), timeout_s=20 if tier == 'quick' else 120)
+        res.report = verify(circuit_c.targets() + graph_c.targets(), timeout_s=20 if tier == 'quick' else 120)
     except ImportError:
         res.report = None
     res.explanation = ('Tier P (unbounded, small): the container primitives under the graph -- IndexList.__delitem__ (swap-with-last deletion that re-indexes the moved element) and '
                        'GrowingList.__setitem__ (grow on demand) -- are proved on a sequence/object-heap model against their abstract postconditions (see functions_under_contract for '
-                       'what is discharged in this run). Tier B (bounded, the deciding part for the class invariant): wf(circuit) is evaluated as a runtime class invariant after '
+                       'what is discharged in this run). The graph surgery primitives Line.__init__ (explicit free pins / first free pins), Line.remove (incl. the squeeze and '
+                       're-numbering loop of a fork\'s outputs) and Node.remove are executed symbolically on an object heap (fields as arrays id -> value, pin lists per node, node / line '
+                       'lists, name tables; the container primitives by their contracts) from any state satisfying the well-formedness clauses W0-W6 (index = position, driver/reader '
+                       'back-references, pins reference lines of the circuit, forks without gaps, name tables) and proved to re-establish them, to add / remove exactly the one object, and '
+                       'to leave every other object\'s driver, reader, pins and position as stated (frame). Tier B (bounded, the deciding part for the class invariant): wf(circuit) is evaluated as a runtime class invariant after '
                        'every step of edit histories through the public API (exhaustive over a small alphabet up to a stated length, seeded long histories), and after copy / pickle / eliminate_1to1_forks / substitute on the shared circuit space (incl. chains of 1:1 forks, cells and forks sharing a name).')
     res.bounded = [graph_drv.history_part(tier, seed), graph_drv.transforms_part(tier, seed)]
     res.assumptions = ['well-formed use as stated in the property: explicit pins only on free positions, nodes removed after their lines, forks have exactly one input',
-                       'the constructors/removers of Node and Line and the rewiring transformations are covered by the bounded part only']
+                       'Node.__init__ and the rewiring transformations (eliminate_1to1_forks, substitute, copy, pickle) are covered by the bounded part only',
+                       'GrowingList.free_index by an assumed contract (first None position or len); IndexList.__delitem__ / GrowingList.__setitem__ by their proved contracts',
+                       'object identity: distinct ids are distinct objects; kinds abstracted to fork / not fork; names to integers']
     res.trusted_base = ['pyvc', 'z3 5.1.0', 'bounded/graph_drv.py (wf predicate)']
     return res
